@@ -3,7 +3,7 @@ CONSTANTS
   FixEarlyReturn = FALSE
   Builds = {"ok", "noname", "unset", "minver12"}
   HRRs = {FALSE, TRUE}
-  MaxCut = 99
+  MaxCut = 1000000
   Verbose = FALSE
 INIT TInit
 NEXT TNext
